@@ -20,6 +20,7 @@ RULE = (
     "object and ir.cfg, raising or not; BlockOrdering — seeded insert/remove histories over 7 blocks; OffsetMapping — "
     "seeded histories over all Offset/element operations; IdentitySet — seeded add/discard. Distinct by (container, "
     "history); non-trivial when the history has >= 2 operations"
+    "; BlockOrdering operations are also fed one-shot generators and lists that name a block twice"
 )
 ASSUMPTIONS = [
     "node.children / node.symbols of RefNode are Python sets: the yield order of get_references is unspecified, so partial consumption is compared as a set inclusion and abstract state only",
